@@ -333,4 +333,3 @@ func (w *writer) render() []byte {
 	}
 	return out
 }
-
